@@ -164,7 +164,21 @@ func (g *c08Gen) funBody(idx int) *ast.Node {
 			l := fmt.Sprintf("l%d_%d", idx, len(f.locals))
 			f.locals = append(f.locals, l)
 			var m, after *ast.Node
-			switch g.n(0, 3, "mform") {
+			switch g.n(0, 4, "mform") {
+			case 4:
+				// a match directly inside another case's body: the inner bindings (one of
+				// them re-using the outer name) end with the inner case
+				inner := fmt.Sprintf("mi%d", idx)
+				im := ast.Match(ast.Bin("+", ast.Id(bnd), ast.Num("1")), ast.Case(ast.Bin("*", ast.Id(bnd), ast.Num("2")), ast.Id(bnd)))
+				if g.b("innerblock") {
+					im = ast.Match(ast.Arr(ast.Id(bnd), ast.Num("5")), ast.Case(ast.Block(ast.Print(ast.Str(f.name+":inner"), ast.Id(bnd), ast.Id(inner))), ast.Arr(ast.Id(inner), ast.Id(bnd))))
+				}
+				m = ast.Match(subj, ast.Case(ast.Block(
+					ast.Print(ast.Str(f.name+":outer-before"), ast.Id(bnd)),
+					ast.ExprS(ast.Set(ast.Id("g2"), im)),
+					ast.Print(ast.Str(f.name+":outer-after"), ast.Id(bnd), ast.Is(ast.Id(inner), "unknown"))), ast.Id(bnd)))
+				f.locals = append(f.locals, inner)
+				g.labels["match-nested-in-case-body"] = true
 			case 3:
 				// a name first used inside the case body (inside the call): gone after the
 				// case, and after the call
@@ -259,12 +273,17 @@ func genC08(t *rapid.T) (*DCase, map[string]bool) {
 	items = append(items, mut("ev", "od", ":even"), mut("od", "ev", ":odd"))
 	// the caller
 	set := func(n string, v *ast.Node) *ast.Node { return ast.ExprS(ast.Set(ast.Id(n), v)) }
-	stmts := []*ast.Node{set("g1", ast.Num("1")), set("g2", ast.Str("s")), set("arr", ast.Arr(ast.Num("1"), ast.Num("2"), ast.Num("3"))), set("sc", ast.Num("7"))}
+	stmts := []*ast.Node{set("g1", ast.Num("1")), set("g2", ast.Str("s")), set("arr", ast.Arr(ast.Num("1"), ast.Num("2"), ast.Num("3"))), set("sc", ast.Num("7")), set("ob", ast.Obj(ast.KV("k", ast.Num("1"))))}
 	argSrc := func() *ast.Node {
-		return rapid.SampledFrom([]*ast.Node{ast.Num("1"), ast.Num("2"), ast.Str("a"), ast.Id("sc"), ast.Id("arr"), ast.Id("g1"), ast.Null(), ast.True()}).Draw(t, "arg").Clone()
+		// besides plain values: arguments that change a variable an earlier argument
+		// named (the earlier parameter keeps the value it was given), and reads of places
+		// that do not exist (the callee may reassign the parameter; nothing is created)
+		return rapid.SampledFrom([]*ast.Node{ast.Num("1"), ast.Num("2"), ast.Str("a"), ast.Id("sc"), ast.Id("sc"), ast.Id("arr"), ast.Id("g1"), ast.Null(), ast.True(),
+			ast.Post("++", ast.Id("sc")), ast.Pre("++", ast.Id("sc")), ast.Set(ast.Id("sc"), ast.Bin("+", ast.Id("sc"), ast.Num("10"))),
+			ast.Mem(ast.Id("ob"), "nokey"), ast.Idx(ast.Id("arr"), ast.Num("7")), ast.Mem(ast.Id("ob"), "k")}).Draw(t, "arg").Clone()
 	}
 	probe := func() {
-		args := []*ast.Node{ast.Str("P"), ast.Id("g1"), ast.Id("g2"), ast.Id("sc"), ast.Id("arr")}
+		args := []*ast.Node{ast.Str("P"), ast.Id("g1"), ast.Id("g2"), ast.Id("sc"), ast.Id("arr"), ast.Id("ob")}
 		stmts = append(stmts, ast.Print(args...))
 		// every name any callee touched must be invisible here
 		if g.b("probe") {
